@@ -284,8 +284,33 @@ static void homogeneous(std::uint64_t seed, int hist)
    int n = rng.chance(10) ? 300 : int(rng.below(24));
    std::vector<const Name*> ids;
    for (int i = 0; i < n + 3; ++i) { std::string s = "m" + std::to_string(i); ids.push_back(&W.lex.get_identifier(std::u8string_view(reinterpret_cast<const char8_t*>(s.data()), s.size()))); }
-   auto check_member = [&](const char* what, const Decl& d, std::size_t i, const Scope& sc, const Name* nm, const Type* ty) {
+   // Every fourth history repeats names inside one list (unnamed parameters all carry the empty identifier; a name written twice):
+   // members that share a name are given one type, so that "the first declaration entered with that name and type" is defined
+   // for every member -- it is the first member carrying that name.
+   const bool repeats = hist % 4 == 1 && n >= 2;
+   if (repeats) {
+      const Name* few[] = { &W.lex.get_identifier(u8""), ids[0], ids[1], &W.lex.get_identifier(u8"x") };
+      for (int i = 0; i < n; ++i) if (!rng.chance(25)) ids[std::size_t(i)] = few[rng.below(4)];
+      ctx().count("homogeneous_histories_with_repeated_names");
+   }
+   std::map<const Name*, const Type*> type_of_name;
+   auto type_for = [&](const Name* nm) -> const Type* { auto [it, fresh] = type_of_name.emplace(nm, nullptr); if (fresh) it->second = rng.pick(W.plain_types); return it->second; };
+   auto check_member = [&](const char* what, const Decl& d, std::size_t i, const Scope& sc, const Name* nm, const Type* ty, const Decl* first = nullptr) {
       std::string k = std::string(what) + ":";
+      if (first && first != &d) {
+         // a later member with a name used before: looking the name up and selecting its type yields the FIRST such member
+         k += "repeated-name:";
+         if (&d.name() != nm) V(k + "name", "member reports another name");
+         if (&d.type() != ty) V(k + "type", "member reports another type");
+         if (&d.master() != &d && &d.master() != first) V(k + "master", "a member's master is neither itself nor the first member of that name and type");
+         if (i >= sc.size() || &*sc.elements().position(i) != &d) V(k + "elements", "scope element at the member's index is not the member");
+         auto o = sc[*nm];
+         if (!o.is_valid()) V(k + "lookup", "a name carried by several members is not found in their scope");
+         else { auto sel = o.get()[d.type()]; if (!sel.is_valid() || &sel.get() != first) V(k + "select-not-first", "selecting by type in the overload set of a name carried by several members of that type does not yield the first one entered"); }
+         ctx().count("members_checked_that_repeat_an_earlier_name");
+         ctx().count(std::string("members_checked:") + what);
+         return;
+      }
       if (nm && &d.name() != nm) V(k + "name", "member reports another name");
       if (ty && &d.type() != ty) V(k + "type", "member reports another type");
       if (&d.master() != &d) V(k + "master", "a unique declaration's master is not itself");
@@ -323,14 +348,17 @@ static void homogeneous(std::uint64_t seed, int hist)
    {
       auto* m = W.lex.make_mapping(greg, Mapping_level{ std::size_t(hist % 3) });
       std::vector<const Decl*> mem; std::vector<const Type*> tys;
+      std::map<const Name*, const Decl*> first_of;
       for (int i = 0; i < n; ++i) {
-         const Type* t = rng.pick(W.plain_types);
+         const Type* t = repeats ? type_for(ids[i]) : rng.pick(W.plain_types);
          auto* p = m->param(*ids[i], *t);
-         mem.push_back(p); tys.push_back(t);
+         mem.push_back(p); tys.push_back(t); first_of.emplace(ids[i], p);
          if (std::size_t(p->position()) != std::size_t(i)) V("parameter:position", "parameter position is not its index");
          check_scope("parameter-list", m->parameters().region().bindings(), mem, tys);
+         // a look-up between two additions (of any member so far) changes nothing
+         if (i && rng.chance(50)) { std::size_t j = rng.below(std::size_t(i) + 1); check_member("parameter", *mem[j], j, m->parameters().region().bindings(), ids[j], tys[j], first_of[ids[j]]); ctx().count("lookups_between_additions"); }
       }
-      for (int i = 0; i < n; ++i) check_member("parameter", *mem[i], i, m->parameters().region().bindings(), ids[i], tys[i]);
+      for (int i = 0; i < n; ++i) check_member("parameter", *mem[i], i, m->parameters().region().bindings(), ids[i], tys[i], first_of[ids[i]]);
       if (m->parameters().size() != std::size_t(n)) V("parameter-list:size", "Parameter_list::size differs");
       check_scope("parameter-list", m->parameters().region().bindings(), mem, tys);
    }
@@ -338,13 +366,16 @@ static void homogeneous(std::uint64_t seed, int hist)
    {
       auto* e = W.lex.make_enum(greg, hist % 2 ? Enum::Kind::Scoped : Enum::Kind::Legacy);
       std::vector<const Decl*> mem; std::vector<const Type*> tys;
+      std::map<const Name*, const Decl*> first_of;
       for (int i = 0; i < n; ++i) {
          auto* en = e->add_member(*ids[i]);
-         mem.push_back(en); tys.push_back(e);
+         mem.push_back(en); tys.push_back(e); first_of.emplace(ids[i], en);
          if (std::size_t(en->position()) != std::size_t(i)) V("enumerator:position", "enumerator position is not its index");
+         if (i && rng.chance(30)) { std::size_t j = rng.below(std::size_t(i) + 1); check_member("enumerator", *mem[j], j, e->region().bindings(), ids[j], e, first_of[ids[j]]); ctx().count("lookups_between_additions"); }
       }
       check_scope("enumeration", e->region().bindings(), mem, tys);
-      for (int i = 0; i < n; ++i) check_member("enumerator", *mem[i], i, e->region().bindings(), ids[i], e);
+      for (int i = 0; i < n; ++i) check_member("enumerator", *mem[i], i, e->region().bindings(), ids[i], e, first_of[ids[i]]);
+      check_scope("enumeration", e->region().bindings(), mem, tys);
       if (e->members().size() != std::size_t(n)) V("enumeration:members", "Enum::members size differs");
    }
    // bases
@@ -352,13 +383,17 @@ static void homogeneous(std::uint64_t seed, int hist)
       auto* c = W.lex.make_class(greg);
       std::vector<const Decl*> mem; std::vector<const Type*> tys;
       int nb = std::min(n, 40);
+      std::map<const Name*, const Decl*> first_of; std::vector<const Name*> bnames;
+      std::map<const Name*, impl::Class*> class_of_name;
       for (int i = 0; i < nb; ++i) {
-         auto* bc = W.lex.make_class(greg);                      // distinct, named base classes
-         bc->id = ids[i];
+         // distinct, named base classes; with repeated names, one class per name (the same base written twice)
+         impl::Class*& bc = class_of_name[ids[i]];
+         if (!bc || !repeats) { bc = W.lex.make_class(greg); bc->id = ids[i]; }
          const Type* t = bc;
          auto* b = c->declare_base(*t);
-         mem.push_back(b); tys.push_back(t);
+         mem.push_back(b); tys.push_back(t); bnames.push_back(ids[i]); if (repeats) first_of.emplace(ids[i], b);
          if (std::size_t(b->position()) != std::size_t(i)) V("base:position", "base position is not its index");
+         if (i && rng.chance(40)) { std::size_t j = rng.below(std::size_t(i) + 1); auto& sc0 = mem[0]->home_region().bindings(); check_member("base", *mem[j], j, sc0, bnames[j], tys[j], repeats ? first_of[bnames[j]] : mem[j]); ctx().count("lookups_between_additions"); }
       }
       // the base list is reachable as a sequence; its scope through the home region of any base
       if (c->bases().size() != std::size_t(nb)) V("base-list:size", "Class::bases size differs");
@@ -366,7 +401,8 @@ static void homogeneous(std::uint64_t seed, int hist)
       if (nb > 0) {
          auto& sc = mem[0]->home_region().bindings();
          check_scope("base-list", sc, mem, tys);
-         for (int i = 0; i < nb; ++i) check_member("base", *mem[i], i, sc, nullptr, tys[i]);
+         for (int i = 0; i < nb; ++i) check_member("base", *mem[i], i, sc, (i % 2 || repeats) ? bnames[std::size_t(i)] : nullptr, tys[i], repeats ? first_of[bnames[std::size_t(i)]] : mem[i]);
+         check_scope("base-list", sc, mem, tys);
       }
    }
    // handler regions
@@ -443,10 +479,10 @@ static void body(Ctx& C)
           "pool name, selection by every pool type, name/type/master/decl-set of every declaration) after every insertion (short "
           "histories) or every 64th (long); plus parameter/enumerator/base/handler sequences of 0..300 members; non-trivial = >= 2 declarations");
    C.assume("each (name,type) pair is used by one declaration kind, as the property's quantifier states");
-   C.assume("names inside one parameter list / enumeration are pairwise distinct");
+   C.assume("members of one parameter list / enumeration / base list that share a name are given one type (every fourth history repeats names; the others keep them pairwise distinct)");
    for (int k = 0; k < NKIND; ++k) C.need(std::string("declared:") + kind_name[k]);
    C.need("answers_gathered_before_examination"); C.need("redeclarations"); C.need("probes_around_declarations"); C.need("name_lookups"); C.need("type_lookups"); C.need("table_validations");
-   C.need("members_checked:parameter"); C.need("members_checked:enumerator"); C.need("members_checked:base"); C.need("members_checked:eh-parameter");
+   C.need("members_checked:parameter"); C.need("homogeneous_histories_with_repeated_names"); C.need("members_checked_that_repeat_an_earlier_name"); C.need("lookups_between_additions"); C.need("members_checked:enumerator"); C.need("members_checked:base"); C.need("members_checked:eh-parameter");
    Rng seeds(C.seed);
    const int nshort = C.thorough ? 1500 : 50;
    for (int h = 0; h < nshort; ++h) heterogeneous(seeds.next(), 1 + int(seeds.below(C.thorough ? 300 : 80)), true, h);
